@@ -40,7 +40,27 @@ NameSeq == CHOOSE s \in [1..Cardinality(Names) -> Names] : \A i, j \in 1..Cardin
 Init == rules \in {[i \in 1..(Cardinality(Names) + 1) |->
                        IF i <= Cardinality(Names) THEN Rule(NameSeq[i], f[NameSeq[i]]) ELSE GenericRule] :
                     f \in [Names -> UNION {Shapes(x, y) : x \in Names, y \in Names}]}
+\* second family: cycles that run through the generic rule itself.  g<T> has two alternatives, one that refers back to an
+\* instantiation of g (directly, unwrapped, parenthesised, nested, through a second generic h, inside a container) and a base
+\* case, in either order; the root reaches g in four ways.  Every reference form has its own visited-rules guard in the code.
+GApp(n, a) == [k |-> "ref", n |-> n, args |-> <<a>>]
+SelfForms == { GApp("g", Ref("T")),
+               [k |-> "unwrap", n |-> "g", args |-> <<Ref("T")>>],
+               [k |-> "paren", t |-> Ty(<<GApp("g", Ref("T"))>>)],
+               GApp("g", GApp("g", Ref("T"))),
+               GApp("h", Ref("T")),
+               Arr(<<Ent(1, 1, NoKey, Ty(<<GApp("g", Ref("T"))>>))>>),
+               Arr(<<Ent(0, -1, NoKey, Ty(<<[k |-> "unwrap", n |-> "g", args |-> <<Ref("T")>>]>>))>>),
+               Map(<<Ent(0, 1, Bare, Ty(<<GApp("g", Ref("T"))>>))>>),
+               [k |-> "ctl", op |-> "and", t |-> GApp("g", Ref("T")), arg |-> Ref("T")] }
+BaseForms == { Ref("T"), Arr(<<Ent(1, 1, NoKey, Ty(<<Ref("T")>>))>>), Ref("nil") }
+RootForms == { GApp("g", Ref("int")), GApp("g", Ref("a")), Arr(<<Ent(1, 1, NoKey, Ty(<<GApp("g", Ref("int"))>>))>>),
+               Arr(<<Ent(1, 1, NoKey, Ty(<<[k |-> "unwrap", n |-> "g", args |-> <<Ref("int")>>]>>))>>) }
+GRule(n, t) == [name |-> n, kind |-> "type", op |-> "=", params |-> <<"T">>, t |-> t]
+GenericFamily == { <<Rule("a", Ty(<<r>>)), GRule("g", IF first THEN Ty(<<sf, b>>) ELSE Ty(<<b, sf>>)), GRule("h", Ty(<<GApp("g", Ref("T"))>>))>> :
+                      r \in RootForms, sf \in SelfForms, b \in BaseForms, first \in BOOLEAN }
+InitAll == Init \/ rules \in GenericFamily
 Next == UNCHANGED rules
-Spec == Init /\ [][Next]_rules
+Spec == InitAll /\ [][Next]_rules
 Emit == PrintT("R " \o ToJson([rules |-> rules]))
 =============================================================================
